@@ -160,6 +160,12 @@ def run_suite(prop, jobs=16):
       print(f"SELFTEST-MISS rule={r['rule']} variant={r['name']} "
             f"expected={r['expect']} got={r['outcome']} {r['detail']}",
             file=sys.stderr)
+  for r in results:
+    if r["outcome"] == "skipped":
+      # a variant whose anchor text is gone tests nothing: say so (does not
+      # affect the exit code; the variant has to be re-anchored by hand)
+      print(f"SELFTEST-STALE rule={r['rule']} variant={r['name']} "
+            "(edit anchor absent from the tree under test)", file=sys.stderr)
   return {
       "variants": len(results),
       "must_fire": sum(r["expect"] == "fire" for r in results),
